@@ -272,6 +272,10 @@ void pop_head(struct linq *linq, struct trace *trace) {
   assert(linq->size);
   struct buffer *link = create_buffer(trace);
   concat_size(linq->head_index, link, trace);
+  if (!ok(trace)) {
+    free_buffer(link);
+    return;
+  }
   char *target = read_entry(get_string(get_view(link)), linq, trace);
 
   TNEG(unlinkat(linq->dirfd, get_string(get_view(link)), 0), trace);
